@@ -39,7 +39,10 @@ def ignore_texts(comps_rel, own=None):
     if rel:
         outs += [f'IGNORE {rel}\n', f'IGNORE {first}\n', f'IGNORE {rel}/\n', f'IGNORE {first}x\n', f'IGNORE {rel}/deeper\n',
                  f'IGNORE {first[:-1] or "q"}\n', f'DATA {rel} 0\nIGNORE {rel}\n', f'IGNORE sibling\nIGNORE {first}\n',
-                 f'IGNORE {rel}x/y\n']
+                 f'IGNORE {rel}x/y\n',
+                 # the path field is escaped text: an IGNORE path spelled with escapes names the same path
+                 'IGNORE %s\\x%02X\n' % (rel[:-1], ord(rel[-1])), 'IGNORE \\u%04X%s\n' % (ord(first[0]), first[1:]),
+                 'IGNORE %s\\x%02Xx\n' % (rel[:-1], ord(rel[-1]))]
     else:
         outs += ['IGNORE x\n', 'IGNORE l1\n']
     return outs
@@ -84,7 +87,7 @@ def c15(ctx, device_only=False):
         boundary, start, xdev, compr = r.choice(combos)
         lv_states = tuple(r.choice(states) for _ in range(DEPTH))
         ign_level = r.randint(1, DEPTH)
-        ign_idx = r.randrange(12)
+        ign_idx = r.randrange(16)
         odd = None
         if r.random() < 0.06:
             odd = (r.randint(1, DEPTH), r.choice(['Manifest', 'Manifest.gz']), r.choice(['dir', 'garbage-gz', 'text']))
